@@ -9,7 +9,7 @@ for id in $ids; do
   prop=${id%-*}
   if ! git -C $REPO apply $DIR/seeded/$id/patch.diff 2>/dev/null; then echo "$id NOAPPLY"; continue; fi
   out=$(./bin/vcheck $prop 2>&1); rc=$?
-  git -C $REPO checkout -- .
+  git -C $REPO checkout -- .; git -C $REPO clean -fdq
   first=$(echo "$out" | grep -m1 '^violation:' | cut -c1-150)
   case $rc in
     1) echo "$id CAUGHT  $first";;
